@@ -17,6 +17,7 @@ INVARIANT DiskWellFormed
 INVARIANT FPathLen
 PROPERTY NullForcing
 PROPERTY AppendOnly
+PROPERTY RefinesLaws
 PROPERTY FailureAtomic
 PROPERTY FailureAtomicSingle
 PROPERTY RoundTrip
